@@ -151,6 +151,12 @@ static struct upipe *upipe_rate_limit_alloc(struct upipe_mgr *mgr,
  */
 static void upipe_rate_limit_free(struct upipe *upipe)
 {
+    struct upipe_rate_limit *upipe_rate_limit =
+        upipe_rate_limit_from_upipe(upipe);
+    struct uchain *uchain;
+    while ((uchain = ulist_pop(&upipe_rate_limit->sent_blocks)) != NULL)
+        uref_free(uref_from_uchain(uchain));
+
     upipe_throw_dead(upipe);
     upipe_rate_limit_clean_uclock(upipe);
     upipe_rate_limit_clean_upump(upipe);
